@@ -1,30 +1,32 @@
-//! Harness-owned values. Every value a scripted child produces is a `Tok`
-//! whose creation and drop are logged in the thread-local `World`, so that
-//! "returned without having been produced", double drops and leaks are
-//! countable rather than silent.
+//! Harness-owned values. Every value a scripted child produces is a token
+//! whose creation and drop are logged in the thread-local `World`.
+//!
+//! `Val` is deliberately a plain 4-byte handle without any pointer: composite
+//! values (lists, results, enumerate pairs) live in the world's table. A
+//! combinator bug that reads an uninitialised output slot, drops a value
+//! twice or forgets one therefore shows up as a *counted* event ("unknown
+//! token dropped", "dropped twice", "leaked") instead of crashing the harness.
 
 use crate::world;
 
-/// A produced value. Not `Clone`, not `Copy`.
+/// A produced value (plain token or composite). Not `Clone`, not `Copy`.
 #[derive(Debug)]
-pub struct Tok {
+pub struct Val {
     pub id: u32,
 }
 
-impl Drop for Tok {
+impl Drop for Val {
     fn drop(&mut self) {
         world::tok_dropped(self.id);
     }
 }
 
-/// Uniform output type of every node so that arbitrary nestings type-check.
-#[derive(Debug)]
-pub enum Val {
-    Tok(Tok),
-    List(Vec<Val>),
-    Res(Box<Result<Val, Val>>),
-    /// enumerate() pairs on concurrent streams
-    Pair(usize, Box<Val>),
+#[derive(Clone, Debug, PartialEq, Eq)]
+pub enum TokKind {
+    Plain,
+    List(Vec<u32>),
+    Res(bool, u32),
+    Pair(usize, u32),
 }
 
 /// A cloneable description of a `Val` (token ids only).
@@ -35,19 +37,34 @@ pub enum Shape {
     Ok(Box<Shape>),
     Err(Box<Shape>),
     P(usize, Box<Shape>),
+    /// a handle the world knows nothing about (garbage read)
+    Unknown(u32),
 }
 
 impl Val {
-    pub fn shape(&self) -> Shape {
-        match self {
-            Val::Tok(t) => Shape::T(t.id),
-            Val::List(v) => Shape::L(v.iter().map(|x| x.shape()).collect()),
-            Val::Res(r) => match &**r {
-                Ok(v) => Shape::Ok(Box::new(v.shape())),
-                Err(v) => Shape::Err(Box::new(v.shape())),
-            },
-            Val::Pair(i, v) => Shape::P(*i, Box::new(v.shape())),
+    pub fn list(items: Vec<Val>) -> Val {
+        let ids: Vec<u32> = items.iter().map(|v| v.id).collect();
+        for v in items {
+            std::mem::forget(v); // ownership moves into the composite
         }
+        world::new_composite(TokKind::List(ids))
+    }
+    pub fn res(r: Result<Val, Val>) -> Val {
+        let (ok, v) = match r {
+            Ok(v) => (true, v),
+            Err(v) => (false, v),
+        };
+        let id = v.id;
+        std::mem::forget(v);
+        world::new_composite(TokKind::Res(ok, id))
+    }
+    pub fn pair(i: usize, v: Val) -> Val {
+        let id = v.id;
+        std::mem::forget(v);
+        world::new_composite(TokKind::Pair(i, id))
+    }
+    pub fn shape(&self) -> Shape {
+        world::shape_of(self.id)
     }
 }
 
@@ -61,14 +78,23 @@ pub fn res_shape(r: &Result<Val, Val>) -> Shape {
 impl Shape {
     pub fn toks(&self, out: &mut Vec<u32>) {
         match self {
-            Shape::T(t) => out.push(*t),
+            Shape::T(t) | Shape::Unknown(t) => out.push(*t),
             Shape::L(v) => v.iter().for_each(|s| s.toks(out)),
             Shape::Ok(s) | Shape::Err(s) | Shape::P(_, s) => s.toks(out),
+        }
+    }
+    pub fn has_unknown(&self) -> Option<u32> {
+        match self {
+            Shape::Unknown(t) => Some(*t),
+            Shape::T(_) => None,
+            Shape::L(v) => v.iter().find_map(|s| s.has_unknown()),
+            Shape::Ok(s) | Shape::Err(s) | Shape::P(_, s) => s.has_unknown(),
         }
     }
     pub fn show(&self) -> String {
         match self {
             Shape::T(t) => format!("t{}", t),
+            Shape::Unknown(t) => format!("?{:#x}", t),
             Shape::L(v) => format!(
                 "[{}]",
                 v.iter().map(|s| s.show()).collect::<Vec<_>>().join(",")
